@@ -77,6 +77,7 @@ var preludeParts = []preludePart{
 	{"tq_nilref", `(declare-fun tq_nilref () tq_Ref)
 (assert (tq_isnil tq_nilref))`},
 	{"tq_isobj ", `(declare-fun tq_isobj (tq_Ref Int) Bool)`},
+	{"tq_iszero ", `(declare-fun tq_iszero (tq_Ref) Bool)`},
 	{"tq_sameval ", `(declare-fun tq_sameval (tq_Ref Int) Bool)`},
 	{"tq_eps", `(declare-fun tq_eps () tq_Seq)`},
 	{"tq_cat ", `(declare-fun tq_cat (tq_Seq tq_Seq) tq_Seq)`},
